@@ -62,6 +62,11 @@ def instances(tier):
                     out.append(dict(id="%s-1-fault+%d" % (cls.__name__, off), cls=cls.__name__, shape=[1], mode="explicit_fault", fault_offset=off, budget=b))
                 for off in ([1] if tier == "quick" else sorted(set([0, 1, stg - 1, stg]))):
                     out.append(dict(id="%s-1-nonfinite+%d" % (cls.__name__, off), cls=cls.__name__, shape=[1], mode="explicit_nonfinite", fault_offset=off, budget=b))
+    # bit-precise corner (QF_FP witness -> real float64 step): ill-scaled state, the increment must not inherit the rounding of the state
+    for nm in (("EulerSolver", "RK4Solver", "RK45CKSolver") if tier == "quick" else ("EulerSolver", "HeunsSolver", "RK4Solver", "RK45CKSolver", "RK8713MSolver", "DOPRI45")):
+        for sign in (1, -1):
+            out.append(dict(id="fp-increment-%s-%s" % (nm, "pos" if sign > 0 else "neg"), cls=nm, shape=[2], mode="fp_increment", sign=sign,
+                            budget=dict(wall_s=90, max_paths=4)))
     for cls in im:
         for sh in ([(1,)] if tier == "quick" else [(1,), (2,)]):
             if cls.__name__ == "RadauIIA19" and sh != (1,):
@@ -96,7 +101,69 @@ def _eqv(c, got, want, scale=1):
     return c.all([c.eq(a, b, scale) for a, b in zip(g, w)])
 
 
+def _fp_cancellation_witness(sign, timeout_s=60):
+    """float64 (y, d) with |y| in (1, 1e12), |d| in (1e-9, 1): fl(fl(y + d) - y) != d   (forming the end state and subtracting the start
+    state back loses the low bits of the increment)"""
+    import z3
+    F = z3.Float64()
+    rm = z3.RNE()
+    y, d = z3.FP("y", F), z3.FP("d", F)
+    sol = z3.SolverFor("QF_FP")
+    sol.set("timeout", int(timeout_s * 1000))
+    ay, ad = z3.fpAbs(y), z3.fpAbs(d)
+    sol.add(z3.fpGT(ay, z3.FPVal(1.0, F)), z3.fpLT(ay, z3.FPVal(1e12, F)), z3.fpGT(ad, z3.FPVal(1e-9, F)), z3.fpLT(ad, z3.FPVal(1.0, F)))
+    sol.add(z3.fpGT(y, z3.FPVal(0.0, F)) if sign > 0 else z3.fpLT(y, z3.FPVal(0.0, F)))
+    sol.add(z3.Not(z3.fpEQ(z3.fpSub(rm, z3.fpAdd(rm, y, d), y), d)))
+    r = sol.check()
+    if r != z3.sat:
+        return str(r), None
+
+    def val(x):
+        bits = sol.model().eval(z3.fpToIEEEBV(x), model_completion=True).as_long()
+        return float(np.array([bits], dtype=np.uint64).view(np.float64)[0])
+    return "sat", (val(y), val(d))
+
+
+def _fp_increment(c, inst):
+    """bit-precise corner of 'the increment equals h*sum(b_i k_i) to rounding': the REAL float64 step on an ill-scaled state (solver
+    witness), constant slope d (h = 1): the returned increment must be the weighted sum the code itself formed, to a few ulps of the
+    INCREMENT (not of the state)"""
+    from srx import core
+    if c.symbolic:
+        status, wit = _fp_cancellation_witness(inst["sign"])
+        c.note("qf_fp_result", status)
+        if status == "unknown":
+            raise core.BudgetHit("qf_fp_unknown")
+        if status == "unsat":
+            c.check("c02.fp.increment_is_weighted_sum_to_rounding_of_the_increment", True)
+            return
+        from fractions import Fraction
+        for k, v in zip(("y", "d"), wit):
+            c.assume(c.eq(c.real(k), Fraction(v)))
+        y, d = wit
+    else:
+        y, d = float(c.real("y")), float(c.real("d"))
+    cls = _get_cls(inst["cls"])
+    integ = cls((2,), dtype=np.dtype(np.float64), rtol=1e-6, atol=1e-6)
+    if getattr(integ, "is_adaptive", False):
+        integ.update_timestep = lambda *a, **k: (integ.solver_dict["timestep"], False)
+    slope = np.array([d, -0.5 * d])
+
+    def rhs(t, yy, **kw):
+        return slope.copy()
+    y0 = np.array([y, 1.0])
+    _, (dT, dY) = integ(rhs, 0.0, y0, {}, 1.0)
+    b = np.asarray(cls.tableau_final, dtype=np.float64)[0, 1:]
+    want = 1.0 * np.sum(integ.stage_values * b, axis=-1)
+    ulp = np.spacing(np.abs(want))
+    rec = dict(cls=inst["cls"], y=y, d=d, dY=[float(v) for v in dY], weighted_sum=[float(v) for v in want], ulps_off=[float(abs(a_ - b_) / u) for a_, b_, u in zip(dY, want, ulp)])
+    c.note("real_code_float64", rec)
+    c.check("c02.fp.increment_is_weighted_sum_to_rounding_of_the_increment", bool(np.all(np.abs(dY - want) <= 4 * ulp)), info=rec)
+
+
 def scenario(c, inst):
+    if inst["mode"] == "fp_increment":
+        return _fp_increment(c, inst)
     cls = _get_cls(inst["cls"])
     shape = tuple(inst["shape"])
     n = int(np.prod(shape))
